@@ -44,7 +44,8 @@ def demo_cmd(src, wt):
         dst = os.path.join(wt, rel)
         os.makedirs(os.path.dirname(dst), exist_ok=True)
         shutil.copy(dt, dst)
-        return "go test -count=1 ./%s/" % os.path.dirname(rel), dst
+        tags = " -tags verif" if "go:build verif" in open(dt).read() else ""
+        return "go test -count=1%s ./%s/" % (tags, os.path.dirname(rel)), dst
     dm = os.path.join(src, "demo")
     if os.path.isdir(dm):
         dst = os.path.join(wt, "zz_mutant_demo")
